@@ -1,34 +1,60 @@
 """Thorough tier: rule self-validation on the CURRENT tree.
 
-Each seed is a small source rewrite (anchored on statement text of the current sources; a seed whose anchor is not
-present exactly once is skipped as n/a - the tree has moved on). Breaking seeds must make the property's own check
-report a NEW finding (compared with the findings of the unmodified tree); benign seeds must leave the verdict
-unchanged. The rewrites are applied to the in-memory source dictionary: nothing is written, nothing is executed.
-A pass from a rule that misses its own seeded fault is not believed (the caller turns it into ANALYSIS-ERROR)."""
+Each seed is a small source rewrite: a list of text edits (module, old block, new block) anchored on the text of the
+current sources; a seed whose anchor is not present exactly once is skipped as n/a - the tree has moved on. Breaking
+seeds (hand-written mutants and independently produced breaking changes) must make the property's own check report a
+NEW finding compared with the unmodified tree; benign seeds (hand-written and independently produced behaviour-preserving
+refactorings) must leave the verdict unchanged. The rewrites are applied to the in-memory source dictionary: nothing is
+written to disk, nothing of the repository is executed. A pass from a rule that misses its own seeded fault, or a rule
+that fires on a benign variant, is not believed (the caller turns it into ANALYSIS-ERROR)."""
+import concurrent.futures as cf
 import json
+import os
 import pathlib
 
 SEEDS = json.loads((pathlib.Path(__file__).resolve().parent / "selfval_seeds.json").read_text())
+_CTX = {}
+
+
+def _apply(sources, seed):
+    s2 = dict(sources)
+    for ed in seed["edits"]:
+        src = s2.get(ed["module"])
+        if src is None or src.count(ed["old"]) != 1:
+            return None
+        s2[ed["module"]] = src.replace(ed["old"], ed["new"])
+    return s2
+
+
+def _one(i):
+    from .cli import analyse
+    seed = SEEDS[i]
+    s2 = _apply(_CTX["sources"], seed)
+    if s2 is None:
+        return i, "n/a", [], None
+    status, findings, ctx, msg = analyse(_CTX["prop"], s2)
+    new = sorted({f.key() for f in findings} - _CTX["base"]) if status == "ok" else []
+    return i, status, new, msg
 
 
 def run(prop, sources, base_findings):
-    from .cli import analyse
-    base = {f.key() for f in base_findings}
+    _CTX.update(prop=prop, sources=sources, base={f.key() for f in base_findings})
+    idx = [i for i, s in enumerate(SEEDS) if s["property"] in (prop, "*")]
+    workers = min(16, os.cpu_count() or 2)
+    try:
+        import multiprocessing
+        with cf.ProcessPoolExecutor(workers, mp_context=multiprocessing.get_context("fork")) as ex:
+            results = list(ex.map(_one, idx, chunksize=4))
+    except Exception:
+        results = [_one(i) for i in idx]
     details, blind, false_alarms = [], [], []
     n_break = n_benign = n_na = 0
-    for s in SEEDS:
-        if s["property"] not in (prop, "*"):
-            continue
-        src = sources.get(s["module"])
-        if src is None or src.count(s["old"]) != 1:
+    for i, status, new, msg in results:
+        s = SEEDS[i]
+        if status == "n/a":
             n_na += 1
             details.append({"seed": s["id"], "result": "n/a (anchor text not present exactly once in the current tree)"})
-            continue
-        s2 = dict(sources)
-        s2[s["module"]] = src.replace(s["old"], s["new"])
-        status, findings, ctx, msg = analyse(prop, s2)
-        new = sorted({f.key() for f in findings} - base) if status == "ok" else []
-        if s["benign"]:
+        elif s["benign"]:
             n_benign += 1
             if status != "ok" or new:
                 false_alarms.append(s["id"])
